@@ -20,7 +20,7 @@ def run(run):
     # regression corpus first (expected observations recomputed by TLC from the stored action sequences)
     run.corpus_model()
     # (A) design level
-    run.mc('MC_Model', 'MC_Model_A.cfg', env={'VERIF_LANG': 'LTiny', 'VERIF_MAXH': 3 if quick else 4},
+    run.mc('MC_Model', 'MC_Model_A.cfg', env={'VERIF_LANG': 'LTiny', 'VERIF_MAXH': 3},
            timeout=1500, name='assets+associations slice',
            must_cover=('AddAssetOK', 'AddAssetRej', 'RemoveAssetOK', 'RemoveAssetRej', 'AddAssociation',
                        'RemoveAssociationOK', 'RemoveFromAssoc'))
@@ -31,9 +31,6 @@ def run(run):
     run.mc('MC_Model', 'MC_Model_R.cfg', env={'VERIF_LANG': 'LTiny', 'VERIF_MAXH': 3}, timeout=1500,
            name='re-add slice: removed / rejected objects handed in again (assets, associations, attackers)',
            must_cover=('AddAssetOK', 'AddAssetRej', 'RemoveAssetOK', 'AddAssociation', 'AddAttacker', 'RemoveAttackerOK'))
-    if not quick:
-        run.mc('MC_Model', 'MC_Model_A.cfg', env={'VERIF_LANG': 'LTiny', 'VERIF_MAXH': 3, 'VERIF_READD': 1}, timeout=2400,
-               name='assets+associations slice with re-adds', must_cover=('AddAssetOK', 'RemoveAssetOK', 'AddAssociation', 'RemoveFromAssoc'))
     # (B) spec -> code
     args = {'langs': langs}
     run.gen_replay('Gen_Model', 'Gen_Model.cfg', MODEL_ADAPTER, args,
@@ -79,6 +76,11 @@ def run(run):
         TRACER.reset()
     if not quick:
         repo_suite_traces(run)
+        # larger design checks last (cut gracefully by the time budget of the thorough tier)
+        run.mc('MC_Model', 'MC_Model_A.cfg', env={'VERIF_LANG': 'LTiny', 'VERIF_MAXH': 3, 'VERIF_READD': 1}, timeout=2400,
+               name='assets+associations slice with re-adds', must_cover=('AddAssetOK', 'RemoveAssetOK', 'AddAssociation', 'RemoveFromAssoc'))
+        run.mc('MC_Model', 'MC_Model_A.cfg', env={'VERIF_LANG': 'LTiny', 'VERIF_MAXH': 4}, timeout=2400,
+               name='assets+associations slice, 4 handles', must_cover=('AddAssetOK', 'RemoveAssetOK', 'AddAssociation', 'RemoveFromAssoc'))
 
 
 def repo_suite_traces(run):
